@@ -80,7 +80,9 @@ func (fs *Filesystem) MkdirAll(path string, perm ros.FileMode) error {
 }
 
 func (fs *Filesystem) MkdirTemp(dir, pattern string) (string, error) {
-	if dir != "" {
+	// Without a base, "" stands for the host's default temporary directory. A
+	// rooted filesystem has no such place: "" is its base, like anywhere else
+	if dir != "" || fs.base != "" {
 		var err error
 		dir, err = fs.resolvePath(dir, "mkdir")
 		if err != nil {
